@@ -1,4 +1,5 @@
 import Pyxv.Model.ChoicesSpec
+import Pyxv.Proofs.XmlRoundTrip
 /-! Helper lemmas for `Pyxv.Proofs.C09` (CSV reader / writer, grouping, instance emission). -/
 namespace Pyxv.Choices
 open Pyxv Pyxv.Rows
@@ -275,5 +276,109 @@ theorem emit_declares (is : List Inst) : ∀ (seen out : List Inst), emitInsts s
               exact Or.inl ⟨x, by simp, hn, hsr⟩
             · simp [findSeen, hn] at hp
               exact Or.inr ⟨p, hp, hsr⟩
+
+/-! ### order of the group keys -/
+
+def appendNew (acc : List Str) (g : Str) : List Str := if g ∈ acc then acc else acc ++ [g]
+
+theorem keys_fold (key : Str) (rows : List Cells) : ∀ acc : List (Str × List Cells),
+    (rows.foldl (groupStep key) acc).map (·.1) = (rows.filterMap (lookup key)).foldl appendNew (acc.map (·.1)) := by
+  induction rows with
+  | nil => intro acc; simp
+  | cons r rs ih =>
+    intro acc
+    simp only [List.foldl_cons]
+    rw [ih]
+    cases hr : lookup key r with
+    | none => simp [groupStep, hr]
+    | some g => simp [groupStep, hr, keys_addToGroup, appendNew]
+
+theorem foldl_appendNew (gs : List Str) : ∀ acc : List Str,
+    gs.foldl appendNew acc = acc ++ (Spec.dedup gs).filter (fun x => decide (x ∉ acc)) := by
+  induction gs with
+  | nil => intro acc; simp [Spec.dedup]
+  | cons g rest ih =>
+    intro acc
+    simp only [List.foldl_cons, ih, Spec.dedup, appendNew]
+    by_cases hg : g ∈ acc
+    · simp only [hg, if_true, List.filter_cons, decide_not, decide_true, Bool.not_true]
+      simp only [List.filter_filter]
+      congr 1
+      apply List.filter_congr
+      intro x _
+      by_cases hx : x ∈ acc
+      · simp [hx]
+      · have : x ≠ g := fun e => hx (e ▸ hg)
+        simp [hx, this]
+    · simp only [hg, if_false, List.filter_cons, decide_not, decide_false, Bool.not_false, if_true]
+      simp only [List.filter_filter, List.append_assoc, List.cons_append, List.nil_append]
+      congr 2
+      apply List.filter_congr
+      intro x _
+      by_cases hx : x ∈ acc <;> by_cases hxg : x = g <;> simp [hx, hxg]
+
+
+/-! ### instance ids through the writer and a reader -/
+
+section
+open Pyxv.Xml
+
+theorem instanceId_withSpaces (n : Node) : instanceId (withSpaces n) = instanceId n := by
+  cases n with
+  | text b s => simp [withSpaces]
+  | elem t a ks => simp only [withSpaces]; split <;> simp [instanceId]
+
+theorem instanceId_normNode (n : Node) (h : isElem n = true) : instanceId (normNode n) = instanceId n := by
+  cases n with
+  | text b s => simp [isElem] at h
+  | elem t a ks => simp [normNode, instanceId]
+
+theorem isElem_withSpaces (n : Node) : isElem (withSpaces n) = isElem n := by
+  cases n with
+  | text b s => simp [withSpaces]
+  | elem t a ks => simp only [withSpaces]; split <;> simp [isElem]
+
+theorem ids_merge (ks : List Node) (h : ∀ k ∈ ks, isElem k = true) :
+    (mergeText (normKids (withSpacesKids ks))).filterMap instanceId = ks.filterMap instanceId := by
+  induction ks with
+  | nil => simp [withSpacesKids, normKids, mergeText]
+  | cons k rest ih =>
+    have hk := h k (by simp)
+    have ih' := ih (fun x hx => h x (by simp [hx]))
+    cases k with
+    | text b s => simp [isElem] at hk
+    | elem t a ks' =>
+      have e1 : ∃ ks2, withSpaces (.elem t a ks') = .elem t a ks2 := by
+        simp only [withSpaces]; split <;> exact ⟨_, rfl⟩
+      obtain ⟨ks2, e1⟩ := e1
+      simp only [withSpacesKids, e1, normKids, normNode, mergeText, List.filterMap_cons, instanceId, ih']
+
+theorem any_isText_false (ks : List Node) (h : ∀ k ∈ ks, isElem k = true) : ks.any isText = false := by
+  induction ks with
+  | nil => rfl
+  | cons k rest ih =>
+    have hk := h k (by simp)
+    cases k with
+    | text b s => simp [isElem] at hk
+    | elem t a ks' => simp [isText, ih (fun x hx => h x (by simp [hx]))]
+
+theorem instanceIds_expected (t : Str) (a : List (Str × Str)) (ks : List Node) (h : ∀ k ∈ ks, isElem k = true) :
+    instanceIds (expected (.elem t a ks)) = ks.filterMap instanceId := by
+  simp only [expected, withSpaces, any_isText_false ks h, Bool.false_eq_true, if_false, normNode, instanceIds]
+  exact ids_merge ks h
+
+theorem instanceId_instNode (i : Inst) : instanceId (instNode i) = some i.name := by
+  unfold instNode; cases i.src <;> simp [instanceId, lookup]
+
+theorem ids_instNodes (out : List Inst) : (out.map instNode).filterMap instanceId = out.map (·.name) := by
+  induction out with
+  | nil => rfl
+  | cons i rest ih => simp [instanceId_instNode, ih]
+
+
+theorem isElem_instNode (i : Inst) : isElem (instNode i) = true := by
+  unfold instNode; cases i.src <;> rfl
+
+end
 
 end Pyxv.Choices
